@@ -10,6 +10,8 @@ structure St where
   new : Block := []
   readers : List Reader := []
   ids : List (List Nat) := []
+  lock : Option Nat := none
+  actors : List Actor := []
 
 /-- a writer operation run to completion on `(old, no backup)` gives the image `new` it would put on disk -/
 def writerImage (st : St) (r : OpRes × Disk) : St × String :=
@@ -26,8 +28,75 @@ def showReader (r : Reader) (id : List Nat) : String :=
     | some res => showOpRes (lookupRes res id)
     | none => "?")
 
+/-! several actors on the block -/
+
+def toSys (st : St) : Sys := ⟨⟨st.disk, st.lock⟩, fun j => st.actors.getD j {}⟩
+
+def ofSys (st : St) (s : Sys) : St :=
+  { st with disk := s.sh.disk, lock := s.sh.lock, actors := (List.range st.actors.length).map s.as }
+
+def showLock : Option Nat → String
+  | none => "lock=-"
+  | some i => s!"lock={i}"
+
+def showPoint (a : Actor) : String :=
+  match a.pc with
+  | .aRead | .bRead => "rd?"
+  | .aHave | .bHave => "rd!"
+  | .aRestore | .bRestore | .wPre => "wr?"
+  | .wMid => "wr~"
+  | .aRestored | .bRestored | .wPost => "wr!"
+  | .lockPre => "lk?"
+  | .lockNo => "lk-"
+  | .lockOk => "lk+"
+  | .uPre => "ul?"
+  | .uPost => "ul!"
+  | .cowNew | .cowFill => "cow"
+  | .done => "done " ++ (match a.res with
+    | some r => showOpRes r
+    | none => "?")
+
+def parseWOp (ws : List String) : Option WOp :=
+  match ws with
+  | "set" :: hw => (parseHandle hw).map WOp.set
+  | "add" :: hw => (parseHandle hw).map WOp.add
+  | ["rm", id] => (bytesOfHex id).map WOp.rm
+  | ["get", id] => (bytesOfHex id).map WOp.get
+  | _ => none
+
 def step (st : St) (ws : List String) : St × String :=
   match ws with
+  | "actor" :: _ :: cut :: opw =>
+    match cut.toNat?, parseWOp opw with
+    | some cut, some op =>
+      let a : Actor := { op := op, cut := cut }
+      ({ st with actors := st.actors ++ [a] }, showPoint a)
+    | _, _ => (st, "bad-op")
+  | ["go", i] =>
+    match i.toNat? with
+    | some i =>
+      let st' := ofSys st ((toSys st).go real false i)
+      (st', s!"{showPoint (st'.actors.getD i {})} {showDisk st'.disk} {showLock st'.lock}")
+    | none => (st, "bad-op")
+  | ["kill", i] =>
+    match i.toNat? with
+    | some i => (ofSys st ((toSys st).ev real false (.kill i)), "ok")
+    | none => (st, "bad-op")
+  | ["killcow", i, k] =>
+    match i.toNat?, k.toNat? with
+    | some i, some k =>
+      let st' := ofSys st ((toSys st).ev real false (.killCow i k))
+      (st', showDisk st'.disk)
+    | _, _ => (st, "bad-op")
+  | ["expire"] =>
+    let st' := ofSys st ((toSys st).ev real false .expire)
+    (st', showLock st'.lock)
+  | "late" :: "set" :: hw =>
+    match parseHandle hw with
+    | some h =>
+      let r := setOp real st.disk h
+      ({ st with disk := r.2 }, showOpRes r.1)
+    | none => (st, "bad-op")
   | ["init", blk] =>
     match decBlk blk with
     | some b => ({ disk := ⟨b, none⟩, old := b, new := b }, "ok")
